@@ -19,6 +19,11 @@ type hop struct {
 type chainSpec struct {
 	hops  []hop
 	owned bool // the value at the end of the chain is owned by this server
+	// sibling, if set, puts a second, unreachable value in front of the first hop's value
+	// (the property becomes a two-element list): "missing" = an IRI that cannot be fetched,
+	// "foreign" = a dereferencable foreign value without further links
+	sibling string
+	hidden  bool // the received activity carries bto / bcc (they must survive forwarding)
 }
 
 func (c chainSpec) String() string {
@@ -26,7 +31,14 @@ func (c chainSpec) String() string {
 	for _, h := range c.hops {
 		s = append(s, h.link+":"+h.form)
 	}
-	return fmt.Sprintf("[%s owned=%v]", strings.Join(s, " "), c.owned)
+	extra := ""
+	if c.sibling != "" {
+		extra += " sibling=" + c.sibling
+	}
+	if c.hidden {
+		extra += " bto+bcc"
+	}
+	return fmt.Sprintf("[%s owned=%v%s]", strings.Join(s, " "), c.owned, extra)
 }
 
 var linkNames = []string{"inReplyTo", "object", "target", "tag"}
@@ -78,6 +90,18 @@ func (c chainSpec) build(act M, remote map[string]M) int {
 		}
 		cur = node
 	}
+	if c.sibling != "" && len(c.hops) > 0 {
+		link := c.hops[0].link
+		sib := "https://r1.example/chain/sibling"
+		if c.sibling == "foreign" {
+			remote[sib] = Doc("Note", sib, "content", "a foreign value without further links")
+		}
+		act[link] = L{sib, act[link]}
+	}
+	if c.hidden {
+		act["bto"] = Erin
+		act["bcc"] = L{Dave, Carol}
+	}
 	return reach
 }
 
@@ -127,7 +151,15 @@ func c17chains(maxDepth int) []chainSpec {
 		out = append(out, chainSpec{hops: []hop{{"object", "embedded"}, {"tag", bf}, {"inReplyTo", "iri"}}, owned: true})
 		out = append(out, chainSpec{hops: []hop{{"target", bf}}, owned: true}) // owned IRI itself: ownership needs no fetch
 	}
-	// two values at level 1, the owned one second
+	// two values at one level, the reachable one second; received activities carrying bto / bcc
+	for _, sib := range []string{"missing", "foreign"} {
+		for _, f := range []string{"embedded", "iri"} {
+			out = append(out, chainSpec{hops: []hop{{"inReplyTo", "iri"}, {"object", f}}, owned: true, sibling: sib})
+			out = append(out, chainSpec{hops: []hop{{"tag", f}}, owned: true, sibling: sib})
+		}
+	}
+	out = append(out, chainSpec{hops: []hop{{"object", "embedded"}}, owned: true, hidden: true},
+		chainSpec{hops: []hop{{"inReplyTo", "iri"}, {"object", "embedded"}}, owned: true, hidden: true})
 	return out
 }
 
